@@ -25,6 +25,7 @@ type application struct {
 	// the transition to 'stopping' and the reason it publishes are one step for
 	// whoever finishes the stop (the last member to leave, in its own goroutine)
 	reasonLock sync.Mutex
+	termLock   sync.Mutex
 
 	// Members can terminate while start() is still spawning the others - even before
 	// start() has put them into the group (the pid is known only when spawn returns).
@@ -197,9 +198,15 @@ func (a *application) terminate(pid gen.PID, reason error) {
 		return
 	}
 	a.startLock.Unlock()
+
+	// One member at a time decides what its termination means for the application:
+	// by the time the state says 'loaded' no other member of that run is half-way
+	// through this function (it could otherwise act on the next run).
+	a.termLock.Lock()
 	if _, exist := a.group.LoadAndDelete(pid); exist == false {
 		// it was started as a child process somewhere deep in the supervision tree
 		// do nothing.
+		a.termLock.Unlock()
 		return
 	}
 
@@ -234,6 +241,7 @@ func (a *application) terminate(pid gen.PID, reason error) {
 
 	if a.group.Len() > 0 {
 		// waiting for the last application member to be terminated
+		a.termLock.Unlock()
 		return
 	}
 
@@ -241,21 +249,26 @@ func (a *application) terminate(pid gen.PID, reason error) {
 	if a.reason == nil {
 		a.reason = gen.TerminateReasonNormal
 	}
+	reason = a.reason
 	a.reasonLock.Unlock()
 
-	old := atomic.SwapInt32(&a.state, int32(gen.ApplicationStateLoaded))
-	if old == int32(gen.ApplicationStateLoaded) {
+	if atomic.LoadInt32(&a.state) == int32(gen.ApplicationStateLoaded) {
+		a.termLock.Unlock()
 		return
 	}
-	if a.stopped != nil {
-		// a stop request is released when the Terminate callback is done
-		defer close(a.stopped)
-	}
-
+	// what belongs to this run is taken (and reset) before the state allows the next one to start
+	stopped := a.stopped
 	a.started = 0
 	a.parent = ""
+	atomic.StoreInt32(&a.state, int32(gen.ApplicationStateLoaded))
+	a.termLock.Unlock()
 
-	a.node.log.Info("application %s (%s) stopped with reason %s", a.spec.Name, a.mode, a.reason)
+	if stopped != nil {
+		// a stop request is released when the Terminate callback is done
+		defer close(stopped)
+	}
+
+	a.node.log.Info("application %s (%s) stopped with reason %s", a.spec.Name, a.mode, reason)
 
 	if lib.Recover() {
 		defer func() {
@@ -267,7 +280,7 @@ func (a *application) terminate(pid gen.PID, reason error) {
 		}()
 	}
 
-	a.behavior.Terminate(a.reason)
+	a.behavior.Terminate(reason)
 
 	network := a.node.Network()
 	if network.Mode() != gen.NetworkModeEnabled {
